@@ -139,6 +139,8 @@ use std::{
 pub use ts_rs_macros::TS;
 
 pub use crate::export::ExportError;
+#[cfg(ts_rs_verif)]
+pub use crate::export::verif;
 
 #[cfg(feature = "chrono-impl")]
 mod chrono;
